@@ -18,7 +18,8 @@ LEVEL = "exploration"
 RULE = (
     "messages drawn from the full grammar (harness/gen.py msg_spec: all kinds, every subset of optional attributes, "
     "0..5 children, XML-representable text); for each message an independently rebuilt copy and EVERY single-point "
-    "perturbation (each attribute changed/dropped/added, text changed, child text empty instead of absent, each child index changed/renamed/dropped/"
+    "perturbation (each attribute changed/dropped/added, text changed, child text empty instead of absent, one character in the "
+    "middle of a 1200- / 9000-character child value changed, each child index changed/renamed/dropped/"
     "duplicated/swapped with its neighbour, kind swapped for a sibling kind with the same fields) is compared with "
     "== and != in both orders against equality of the expected structural views computed from the specs. A case (one "
     "message with all its perturbations) is non-trivial when it has >= 2 children (so that perturbations fall on a "
@@ -182,6 +183,22 @@ def check_message(spec):
         _pair(spec, p, label)
         labels.add(label.split("-last")[0].split("-notlast")[0])
         n += 1
+    # long values (a BLOB payload, a long text) that differ in ONE character somewhere in the middle
+    for i, c in enumerate(spec.get("children", [])):
+        prule = gen.PARTS[c["kind"]][2]
+        if prule not in ("free", "base64"):
+            continue
+        unit = "QUJD" if prule == "base64" else "abcd"
+        for total in (1200, 9000):
+            long_a = unit * (total // 4)
+            mid = (len(long_a) // 2) & ~3
+            long_b = long_a[:mid] + ("QUJE" if prule == "base64" else "abce") + long_a[mid + 4:]
+            a2, b2 = copy.deepcopy(spec), copy.deepcopy(spec)
+            a2["children"][i]["text"], b2["children"][i]["text"] = long_a, long_b
+            _pair(a2, b2, f"child-long-value-middle-changed-{total}")
+            n += 1
+            labels.add("child-long-value-middle-changed")
+        break  # one child per message is enough
     check_message.pairs += n
     nchild = len(spec.get("children", []))
     return Info(nontrivial=nchild >= 2, labels=[f"children={min(nchild, 3)}{'+' if nchild >= 3 else ''}", spec["kind"][:3]] + sorted(labels))
